@@ -281,22 +281,47 @@ def run(ix, R):
     site = PP + '::ParameterParser.transform'
     with R.guard('6.transform', 'ALG', site, 'typing'):
         f = ix.func(site)
-        src = unparse(f.node)
-        need = ["newval = list(map(float, val))",
-                "if val.lower() in ['true', 'yes', 'yeah', 'yup', 'certainly', 'uh-huh']:\n            newval = True",
-                "elif val.lower() in ['false', 'no', 'nope', 'no-way', 'hell-no']:\n            newval = False",
-                "newval = float(val)", "section[key] = newval", "return newval"]
-        miss = [x for x in need if x not in src]
-        R.check('6.transform', 'ALG', site,
-                'raw values: list -> floats (kept if not numeric); true/false word sets -> booleans; otherwise float or the string',
-                not miss, key='; '.join(miss), detail='missing %s' % miss, loc=f.loc())
+        from sa.helpers import need
+        ps = f.params()
+        b = need(R, '6.transform', 'ALG', site,
+                 'raw values: list -> floats (kept if not numeric); otherwise float or the string; result stored and returned', f,
+                 ['V_val = V_sec[V_key]', 'V_new = V_val', '''
+if isinstance(V_val, list):
+    ...
+elif isinstance(V_val, str):
+    ...
+''', 'V_new = list(map(float, V_val))', 'V_new = float(V_val)', 'V_sec[V_key] = V_new', 'return V_new'],
+                 binding={'V_sec': ps[1], 'V_key': ps[2]})
+        # the boolean word sets: every `x.lower() in [literals]` test assigns the constant its words mean
+        words = {}
+        for n in ast.walk(f.node):
+            if isinstance(n, ast.If) and isinstance(n.test, ast.Compare) and isinstance(n.test.ops[0], ast.In) \
+                    and isinstance(n.test.comparators[0], (ast.List, ast.Tuple, ast.Set)) and \
+                    unparse(n.test.left).endswith('.lower()'):
+                lits = frozenset(e.value for e in n.test.comparators[0].elts if isinstance(e, ast.Constant))
+                vals = [s.value.value for s in n.body if isinstance(s, ast.Assign) and isinstance(s.value, ast.Constant)]
+                words[lits] = vals
+        why = []
+        t = [v for k, v in words.items() if 'true' in k]
+        fa = [v for k, v in words.items() if 'false' in k]
+        if t != [[True]]:
+            why.append("the word set containing 'true' assigns %s" % t)
+        if fa != [[False]]:
+            why.append("the word set containing 'false' assigns %s" % fa)
+        ks = list(words)
+        if len(ks) == 2 and ks[0] & ks[1]:
+            why.append('word sets overlap: %s' % sorted(ks[0] & ks[1]))
+        if any(w != w.lower() for k in ks for w in k):
+            why.append('a word is not lower-case although the value is lower-cased before the test')
+        R.check('6.bool', 'ALG', site, "boolean words: the set with 'true' -> True, the set with 'false' -> False, disjoint, lower-case",
+                not why, key='; '.join(why), detail='; '.join(why), loc=f.loc())
     site = PP + '::ParameterParser.read'
     with R.guard('6.read', 'DOM', site, 'read'):
         f = ix.func(site)
-        src = unparse(f.node)
-        R.check('6.read', 'DOM', site, 'every value of the file passes through transform (ConfigObj.walk)',
-                'self._raw_config = configobj.ConfigObj(filename)' in src and 'self._raw_config.walk(self.transform)' in src,
-                key='walk', detail='transform is not applied to the whole file', loc=f.loc())
+        from sa.helpers import need
+        need(R, '6.read', 'DOM', site, 'every value of the file passes through transform (ConfigObj.walk)', f,
+             ['self._raw_config = configobj.ConfigObj(V_fn)', 'self._raw_config.walk(self.transform)'],
+             binding={'V_fn': f.params()[1]})
 
 
 def strictness(ix, R, fams, table):
@@ -321,7 +346,8 @@ def strictness(ix, R, fams, table):
             if len(st) != 1 or not fl.tab.equal(st[0].value, fl.tab.atom('idx', (pe['config'], key))):
                 why.append('value stored is %s' % [fmt(fl, e.value) for e in st])
         r = one(fl.of('return'), 'return')
-        if 'klass(**kwargs)' not in unparse(f.node):
+        from sa.pattern import find as _find
+        if _find(f.node, ['V_o = %s(**V_kw)' % f.params()[1], 'return V_o'])[0] is None:
             why.append('object is not built as klass(**kwargs)')
         R.check('3.strict', 'DOM', site,
                 'create_klass: every key of the section must be a constructor keyword (else KeyError); the value '
@@ -358,12 +384,18 @@ def strictness(ix, R, fams, table):
     site = FA + '::determine_klass'
     with R.guard('3.determine', 'DOM', site, 'determine_klass'):
         f = ix.func(site)
-        src = unparse(f.node)
-        ok = 'klass_field = config.pop(field).lower()' in src and 'raise KeyError' in src and \
-            'klass = factory(klass_field)' in src
-        R.check('3.determine', 'DOM', site,
-                'the selector is removed from the section, lower-cased, and a missing selector is an error',
-                ok, key='determine_klass', detail='determine_klass differs', loc=f.loc())
+        from sa.helpers import need
+        ps = f.params()
+        need(R, '3.determine', 'DOM', site,
+             'the selector is removed from the section, lower-cased, and a missing selector is an error', f,
+             ['''
+try:
+    V_sel = V_cfg.pop(V_field).lower()
+except KeyError:
+    ...
+    raise KeyError
+''', 'V_k = V_fac(V_sel)', 'return (V_cfg, V_k, V_mix)'],
+             binding={'V_cfg': ps[0], 'V_field': ps[1], 'V_fac': ps[2]})
     # constructors reached through klass(**config): no **kwargs sink
     direct = ['star', 'planet', 'optimizer', 'observation', 'instrument']
     for fam in direct + ['temperature', 'pressure', 'chemistry', 'gas', 'model', 'contribution']:
@@ -382,19 +414,26 @@ def strictness(ix, R, fams, table):
         site = FA + '::' + nm
         with R.guard('3.direct', 'DOM', site, 'direct construction'):
             f = ix.func(site)
-            src = unparse(f.node)
-            R.check('3.direct', 'DOM', site, '%s builds klass(**config) with every remaining key of the section' % nm,
-                    'obj = klass(**config)' in src and 'determine_klass(config,' in src, key=nm, detail='differs', loc=f.loc())
+            from sa.helpers import need
+            need(R, '3.direct', 'DOM', site, '%s builds klass(**config) with every remaining key of the section' % nm, f,
+                 ['V_cfg, V_k, V_m = determine_klass(V_cfg, V_field, V_fac, V_base)', 'V_o = V_k(**V_cfg)', 'return V_o'],
+                 binding={'V_cfg': f.params()[0]})
     site = FA + '::generate_contributions'
     with R.guard('3.contrib', 'DOM', site, 'contributions'):
         f = ix.func(site)
-        src = unparse(f.node)
-        ok = 'if key in klass.input_keywords():' in src and 'create_klass(config[key], klass, False)' in src and \
-            "raise Exception(f'Unknown contributions {check_key}')" in src and \
-            'check_key = [k for k, v in config.items() if isinstance(v, dict)]' in src
-        R.check('3.contrib', 'DOM', site,
-                'every sub-section of [Model] must match a contribution keyword (else an error) and is built by create_klass',
-                ok, key='generate_contributions', detail='differs', loc=f.loc())
+        from sa.helpers import need
+        need(R, '3.contrib', 'DOM', site,
+             'every sub-section of [Model] must match a contribution keyword (else an error) and is built by create_klass', f,
+             ['V_chk = [V_a for V_a, V_b in V_cfg.items() if isinstance(V_b, dict)]', '''
+if V_key in V_k.input_keywords():
+    V_out.append(create_klass(V_cfg[V_key], V_k, False))
+    V_chk.pop(V_chk.index(V_key))
+    break
+''', '''
+if len(V_chk) > 0:
+    ...
+    raise Exception(V_msg)
+''', 'return V_out'], binding={'V_cfg': f.params()[0]})
 
 
 def use(ix, R, table):
@@ -432,14 +471,18 @@ MUTANTS = [
     ('regress-f20b', 'taurex/data/profiles/chemistry/taurexchemistry.py', "self._base_metallicity = base_metallicty", "self._base_metallicity = 0.013", '4.use'),
     ('unbind-class', 'taurex/temperature.py', "from .data.profiles.temperature import Rodgers2000\n", "", '1.doc.sel'),
     ('rename-keyword', TE + 'rodgers.py', "return ['rodgers', 'rodgers2010']", "return ['rodgers2010']", '1.doc.sel'),
-    ('regress-f22', 'taurex/chemistry.py', "from .data.profiles.chemistry.gas.twopointgas import TwoPointGas\n", "", '1.doc.sel'),
     ('rename-ctor-key', TE + 'isothermal.py', "def __init__(self, T=1500):\n        super().__init__('Isothermal')\n        self._iso_temp = T", "def __init__(self, T_iso=1500):\n        super().__init__('Isothermal')\n        self._iso_temp = T_iso", '2.doc.key'),
     ('strict-drop', FA, "        else:\n            log.error('Object {} does not have parameter {}'.format(klass.__name__, key))\n            log.error('Available parameters are %s', kwargs.keys())\n            raise KeyError\n", "", '3.strict'),
     ('factory-default', FA, "    raise NotImplementedError('Temperature profile {} not implemented'.format(profile_type))", "    return klass", '3.factory'),
     ('kwargs-sink', 'taurex/data/stellar/star.py', 'def __init__(self, temperature=5000, radius=1.0, distance=1, magnitudeK=10.0, mass=1.0, metallicity=1.0):', 'def __init__(self, temperature=5000, radius=1.0, distance=1, magnitudeK=10.0, mass=1.0, metallicity=1.0, **kwargs):', '3.sink'),
     ('unused-key', 'taurex/contributions/simpleclouds.py', 'self._cloud_pressure = clouds_pressure', 'self._cloud_pressure = 1000.0', '4.use'),
     ('regress-f1', FA, 'inspect.getfullargspec(klass.__init__)[:4]', 'inspect.getargspec(klass.__init__)', '5.api'),
-    ('transform-true', PP, "if val.lower() in ['true', 'yes', 'yeah', 'yup', 'certainly', 'uh-huh']:\n                newval = True", "if val.lower() in ['true', 'yes', 'yeah', 'yup', 'certainly', 'uh-huh']:\n                newval = False", '6.transform'),
+    ('transform-true', PP, "if val.lower() in ['true', 'yes', 'yeah', 'yup', 'certainly', 'uh-huh']:\n                newval = True", "if val.lower() in ['true', 'yes', 'yeah', 'yup', 'certainly', 'uh-huh']:\n                newval = False", '6.bool'),
+    ('transform-nofloat', PP, "                    newval = float(val)", "                    newval = val", '6.transform'),
     ('nolower', FA, 'klass_field = config.pop(field).lower()', 'klass_field = config.pop(field)', '3.determine'),
 ]
-EQUIVALENTS = []
+EQUIVALENTS = [
+    ('transform-rename', PP, r're:\bnewval\b', 'converted'),
+    ('factory-rename-local', FA, r're:\bklass_field\b', 'selector'),
+    ('create-klass-rename', FA, r're:\bkwargs\b', 'ctor_args'),
+]
